@@ -452,6 +452,67 @@ func main() {
 		}
 	}
 
+	// ---- B2: the other frame variants of the public API: WriteSecureHeader, ToBytesPackECB
+	{
+		vr := vh.NewRng(env.Seed*0x1F123BB5 + 0xECB)
+		nv := 200
+		if env.Thorough {
+			nv = 4000
+		}
+		if nv > len(cases) {
+			nv = len(cases)
+		}
+		var lines []string
+		var gots [][]byte
+		var names []string
+		for i := 0; i < nv; i++ {
+			r := res[i]
+			if differs(r) {
+				continue
+			}
+			src, ver := byte(vr.Intn(256)), byte(vr.Intn(256))
+			pc, oid, key := genInt(vr, 8), int32(genInt(vr, 4)), int32(genInt(vr, 4))
+			var got []byte
+			o := vh.Guard(func() {
+				out := wio.NewDataOutputX()
+				out.WriteBytes(r.goBytes)
+				out.WriteSecureHeader(src, ver, pc, oid, key)
+				got = append([]byte{}, out.ToByteArray()...)
+			})
+			if !o.OK() {
+				got = nil
+			}
+			lines = append(lines, fmt.Sprintf("secure %d %d %d %d %d %s", src, ver, pc, oid, key, vh.Hex(r.goBytes)))
+			gots = append(gots, got)
+			names = append(names, "DataOutputX.WriteSecureHeader")
+			n := vr.PickInt([]int{1, 8, 16, 16, 32, 7, 1 + vr.Intn(40)})
+			var ecb []byte
+			o = vh.Guard(func() {
+				p, _ := cases[i].build()
+				ecb = append([]byte{}, pack.ToBytesPackECB(p, n)...)
+			})
+			if !o.OK() {
+				ecb = nil
+			}
+			lines = append(lines, fmt.Sprintf("ecb %d %s", n, vh.Hex(r.goBytes)))
+			gots = append(gots, ecb)
+			names = append(names, "pack.ToBytesPackECB")
+		}
+		outs, err := vh.RunDriver(env.Driver, lines)
+		if err != nil {
+			vh.Die("%v", err)
+		}
+		for i := range lines {
+			want := vh.UnHex(outs[i])
+			rep.Count("variant:" + names[i])
+			rep.Case(vh.Clip(lines[i], 120), true)
+			if !bytes.Equal(gots[i], want) {
+				rep.Fail("property", names[i]+":differs", fmt.Sprintf("%s differs from the reference at offset %d", names[i], firstDiff(want, gots[i])),
+					map[string]interface{}{"driver_line": vh.Clip(lines[i], 3000), "got_hex": vh.Clip(vh.Hex(gots[i]), 3000), "reference_hex": vh.Clip(vh.Hex(want), 3000)})
+			}
+		}
+	}
+
 	// ---- D: real frames on a loopback socket, through the public API
 	if nSock > len(cases) {
 		nSock = len(cases)
